@@ -40,6 +40,14 @@ def _check_tuple(ctx, t):
     ctx.require(np.array_equal(M, M_before), 'to_int_tuple does not modify the matrix', f'{t}')
     ctx.require(tuple(int(x) for x in back) == tuple(t), 'round trip', f'{t} -> {back}')
     Mi = spf2.inverse(M)
+    # the same matrix in other memory layouts (M.T of a row-major matrix is column-major): inverse and the inverse map must not depend on it
+    code = sum(int(x) for x in t) + n
+    lay = ref.LAYOUTS[code % len(ref.LAYOUTS)]
+    Ml = ref.with_layout(M, lay)
+    ctx.require(np.array_equal(spf2.inverse(Ml), Mi), 'inverse does not depend on the memory layout of its argument', f'{t} layout={lay}')
+    ctx.require(tuple(int(x) for x in spf2.to_int_tuple(Ml)) == tuple(t), 'to_int_tuple does not depend on the memory layout of its argument', f'{t} layout={lay}')
+    ctx.require(np.array_equal(spf2.inverse(np.ascontiguousarray(M.T).T), Mi) and np.array_equal(spf2.inverse(M.T), spf2.inverse(np.ascontiguousarray(M.T))),
+                'inverse of a transposed view = inverse of its contiguous copy', f'{t}')
     I = np.eye(2 * n, dtype=np.int64)
     ctx.require(np.array_equal((Mi.astype(np.int64) @ M.astype(np.int64)) % 2, I), 'inverse left', f'{t}')
     ctx.require(np.array_equal((M.astype(np.int64) @ Mi.astype(np.int64)) % 2, I), 'inverse right', f'{t}')
@@ -127,6 +135,21 @@ def run_transvection(ctx, case):
         for hh in np.asarray(h).astype(np.int64):
             sX = (X[:, :n] @ hh[n:] + X[:, n:] @ hh[:n]) % 2
             X = (X + sX[:, None] * hh) % 2
+        # longer lists of transvections in ONE call are applied one after the other, repeats included (a, b, a is not b when <a,b> = 1)
+        i2 = 1 + (i0 * 7 + i1 * 3) % (4 ** n - 1)
+        v2 = np.array([(i2 >> j) & 1 for j in range(2 * n)], dtype=np.uint8)
+        h2 = spf2.find_transvection(v1.copy(), v2.copy())
+        hh_all = [np.asarray(x, dtype=np.uint8) for x in h] + [np.asarray(x, dtype=np.uint8) for x in h2]
+        chains = [hh_all, [hh_all[0], hh_all[2], hh_all[0]], [hh_all[1], hh_all[3], hh_all[1], hh_all[3]], hh_all + hh_all[::-1], [v1, v2, v1], [v0, v1, v0, v2]]
+        for ch in chains:
+            Xc = allv.astype(np.int64)
+            for hh in ch:
+                hh = hh.astype(np.int64)
+                sX = (Xc[:, :n] @ hh[n:] + Xc[:, n:] @ hh[:n]) % 2
+                Xc = (Xc + sX[:, None] * hh) % 2
+            outc = spf2.transvection(allv.copy(), *[c.copy() for c in ch])
+            ctx.require(np.array_equal(np.asarray(outc) % 2, Xc), 'a list of transvections in one call = the transvections applied one after the other', f'chain={[c.tolist() for c in ch]}')
+        ctx.require(np.array_equal(spf2.transvection(v0.copy(), *hh_all) % 2, v2), 'chained find_transvection results map v0 -> v1 -> v2 in one call')
         for shp in ((4 ** n, 2 * n), (2 ** n, 2 ** n, 2 * n), (1, 4 ** n, 2 * n), (2, 2 ** n, 2 ** (n - 1), 2 * n)):
             arg = allv.reshape(shp).copy()
             outb = spf2.transvection(arg, *h)
